@@ -19,7 +19,7 @@ PROP = dict(
              "running liquidationsV2 MsgCloseDutchAuctionForBorrow on the real lend keeper) by 3 users over 2 pools x 3 assets with 12 same-pool and 5 cross-pool pairs "
              "(one e-mode pair, one isolated asset, stable borrows), oracle moves and time gaps of 0 s .. 4 years between messages; amounts "
              "boundary-directed (available +-1, LTV threshold +-1/+2, pool balance +-1, interest / reserve-share truncations +-1, exact close-out), "
-             "one borrow in ten names a lend position of another asset of the pool (C08-F1); plus the scripted witnesses of C08-F1, C08-F2 and C08-F3 / C10-F7; "
+             "one borrow in ten names a lend position of another asset of the pool (C08-F1); plus the scripted witnesses of C08-F1, C08-F2, C08-F3 / C10-F7 and C08-F4; "
              "after EVERY message the full projection (pool-asset stats, every lend / borrow record, balances, cToken supplies, counters) is diffed "
              "against the model and the extracted predicates holds_C08_lend / holds_C08_borrow / holds_C08_avail / mismatched_lend (all positions) and, for a successful "
              "borrow / draw / withdraw / close-lend, holds_C08_ltv / holds_C08_ltv_new / holds_C08_pool / holds_C08_pledged judge the implementation's state; "
@@ -45,8 +45,14 @@ PROP = dict(
                   "RemoveFaultyAuctions (inside FundReserveAcc) walks the generation-1 lend auctions of app 3, of which none can exist here (not modelled)",
                   "a closed position is never returned to the lend books on this tree: the generation-2 close deletes the borrow record and nothing re-opens it; lend CreteNewBorrow is "
                   "called only by the generation-1 x/liquidation UnLiquidateLockedBorrows (reached through x/auction MsgPlaceDutchLendBid)",
-                  "not modelled, never issued by the generator: the generation-1 modules (x/liquidation MsgLiquidateBorrow - still routed - and its sell-off arithmetic, x/auction lend "
-                  "auctions and bids, CreteNewBorrow, RemoveFaultyAuctions' loop body), DeletePoolAndTransferInterest (block hook at heights divisible by 14400, deletes pool records: "
+                  "the generation-1 hand-over message x/liquidation MsgLiquidateBorrow (still routed; the fixture gives the lend app generation-1 auction parameters) is modelled in its effect on "
+                  "the lend books as coded (flag + interest, deduction from the borrow's collateral / the lend record's AmountIn / TotalLend capped by the collateral, cToken burn of the uncapped "
+                  "deduction, coins to the generation-1 auction module account and penalty to the reserve, NO change of the totals borrowed: finding C08-F4); its result class, the interest "
+                  "added and the three sell-off amounts are ENV values measured on a dry run of the message itself; issued in one history out of eight, in its second half, after a fall of the "
+                  "collateral price to just below the position's liquidation threshold; the book predicates count as known-class failures (kf_C08_4) for the rest of such a history",
+                  "not modelled, never issued by the generator: the life of a generation-1 auction (x/auction lend auctions and bids, x/liquidation UnLiquidateLockedBorrows with its "
+                  "re-listing, lend CreteNewBorrow = the return of an unsold position, RemoveFaultyAuctions' loop body): a position flagged by generation 1 stays flagged in the histories; "
+                  "DeletePoolAndTransferInterest (block hook at heights divisible by 14400, deletes pool records: "
                   "pools are constant configuration in the model; the harness skips those heights), limit bids / the automatic fill (C11)",
                   "the ESM kill switch of an app (esm MsgKillSwitch by an admin or - refused - by somebody else, for the lend app, another app, a missing app) and the depreciation of "
                   "a pool (lend HandlePoolDepreciateProposal, run all-or-nothing like a passed governance proposal) are state in the model; every handler's early return on them "
@@ -65,11 +71,13 @@ PROP = dict(
     )
 
 MANIFEST = dict(
-    level_text="PARTIAL (known findings C08-F2, C08-F3). Both book identities (total lent = available + pledged-and-not-auctioned collateral; totals borrowed variable/stable = principal of open "
+    level_text="PARTIAL (known findings C08-F2, C08-F3, C08-F4). Both book identities (total lent = available + pledged-and-not-auctioned collateral; totals borrowed variable/stable = principal of open "
                "non-liquidated borrows; published id lists = exactly the positions of the pool-asset) proved as an inductive invariant of all eleven lend "
                "messages (same-pool and cross-pool), of MsgRepayWithdraw / MsgFundModuleAccounts / MsgFundReserveAccounts, of the hand-over of a position to a liquidation auction and of the "
                "bids on and the close of its generation-2 auction (for every target debt / owner / returned collateral the auction may supply), and lifted to every finite history with arbitrary "
-               "oracle prices and arbitrary interest / reward / liquidation-decision inputs OUTSIDE known-finding class kf_C08_2; inside it (the hand-over deletes a "
+               "oracle prices and arbitrary interest / reward / liquidation-decision inputs OUTSIDE the known-finding classes kf_C08_2 and kf_C08_4 (the generation-1 hand-over message "
+               "x/liquidation MsgLiquidateBorrow, still routed, flags a position and leaves its principal in the totals borrowed: refuted with a witness replayed on the real keepers, "
+               "total borrowed 900 000 with the only position under liquidation); inside kf_C08_2 (the hand-over deletes a "
                "lend record that still has available-to-borrow or other open positions) the identity of total lent is proved refuted with a witness replayed on "
                "the real keepers (2 000 313 940 published vs 2 000 000 000 held by positions); AvailableToBorrow >= 0 in every reachable state; "
                "the close of a handed-over position: the position is gone from records / published ids / user mapping, nothing returns to the lend position, exact flows of the asset out "
@@ -79,7 +87,7 @@ MANIFEST = dict(
                "collected: pool 30 000 short); a cross-pool position whose lend record the hand-over deleted can never be closed (c08_close_stuck, finding C10-F7); "
                "with the ESM kill switch on no lend message, RepayWithdraw or hand-over changes the state, a depreciated pool takes no new funds or debt (c08_kill_switch_freezes, c08_depreciated_pool_closed); "
                "loan-to-value decision rule of Borrow / Draw / BorrowAlternate with the explicit one-ulp Quo slack (and the bridged-coin bound for new "
-               "cross-pool positions), pool-holds-the-loan and pledged-collateral safety of Withdraw / CloseLend proved per message from any invariant "
+               "cross-pool positions), pool-holds-the-loan and pledged-collateral safety of Withdraw / CloseLend / RepayWithdraw proved per message from any invariant "
                "state, hence after every history. Finding C08-F1 (BorrowAsset accepted a lend position of another asset than the pair's asset in and priced "
                "the pledged cTokens with it: loan worth 100% of the collateral at Ltv 0.5) was reproduced on the real keepers and is repaired by "
                "fixes/C08-F1; the model follows the repaired code, 'no position hangs on a lend position of another asset' is part of the proved invariant, "
